@@ -31,7 +31,9 @@ def choose_scenarios(seed, tier):
             for j in range(4):
                 allsc.append((m, taints[(off + k * 3 + j * 5) % len(taints)], ("child", "latechild")[j % 2], ("call", "go")[(k + j) % 2]))
         allsc = specials + allsc
-        n = 330
+        # the traversal cost grows much faster than linearly with the number of sources in one program (a 330-scenario
+        # program needs > 15 min, a 180-scenario one about 1 min): small chunks
+        n = 150
         return [allsc[i:i + n] for i in range(0, len(allsc), n)]
     sel = list(specials)
     seen = set(specials)
